@@ -286,6 +286,18 @@ class Ctx:
             return False
         return True
 
+    def defn(self, impl, model, what, case, signature=None):
+        """Compare implementation output with the model where the model IS the property's definition
+        (e.g. 'distances equal the values obtained by walking parent links'): a mismatch is a failing input
+        for the property itself, not merely a broken correspondence."""
+        self.corr_checks += 1
+        self.oracle_checks += 1
+        if impl != model:
+            self.fail('oracle', what + ' — implementation differs from the definition', case, signature,
+                      impl=_short(impl), model=_short(model))
+            return False
+        return True
+
     def has_new_failure(self, kind=None):
         return any(kind is None or f['kind'] == kind for f in self.failures)
 
